@@ -168,13 +168,26 @@ FloatInt(b) ==
         sh == e - 150 IN
     IF sh >= 0 THEN (IF sh <= 7 THEN m * (2 ^ sh) ELSE -1)
     ELSE IF -sh <= 23 /\ m % (2 ^ (-sh)) = 0 THEN m \div (2 ^ (-sh)) ELSE -1
-\* Float(scale = 1000): value / 1000 rounded to 3 decimals: exact for integer values
+\* a normal float below 2^24 with a fractional part: the nearest integer, -1 on an exact tie (either neighbour is a
+\* correct rounding then: not decided)
+FloatNear(b) ==
+    LET e == (b[1] % 128) * 2 + b[2] \div 128
+        m == 8388608 + (b[2] % 128) * 65536 + b[3] * 256 + b[4]
+        s == 150 - e IN
+    IF s >= 26 THEN 0                                  \* |x| < 1/4
+    ELSE LET p == 2 ^ s  fl == m \div p  fr == m % p IN
+         IF 2 * fr = p THEN -1 ELSE IF 2 * fr > p THEN fl + 1 ELSE fl
+\* Float(scale = 1000): the register holds Wh, the sensor reports kWh rounded to 3 decimals, i.e. the nearest whole Wh
+\* divided by 1000: exact for integer values below 2^31, the nearest integer for fractional values, 0 for subnormals
 Float(b) ==
-    LET c == FloatClass(b) IN
-    IF c = "zero" THEN Num(1000, FALSE, <<0>>)
+    LET c == FloatClass(b)
+        e == (b[1] % 128) * 2 + b[2] \div 128 IN
+    IF c \in {"zero", "subnormal"} THEN Num(1000, FALSE, <<0>>)
     ELSE IF c = "normal" /\ FloatInt(b) >= 0
          THEN LET v == FloatInt(b) IN Num(1000, b[1] >= 128, <<v \div 65536, v % 65536>>)
-    ELSE Val("undecided", <<>>, "")          \* not decided by the specification
+    ELSE IF c = "normal" /\ e < 150 /\ FloatNear(b) >= 0
+         THEN LET v == FloatNear(b) IN Num(1000, b[1] >= 128, <<v \div 65536, v % 65536>>)
+    ELSE Val("undecided", <<>>, "")          \* not decided by the specification (NaN, infinities, >= 2^31, exact ties)
 
 (***************************************************************************)
 (* Decode(ty, par, b): the documented reading.  par = [scale, labels]      *)
